@@ -28,7 +28,24 @@ pub(crate) fn escape_html_quote(s: &str) -> Cow<'_, str> {
 }
 
 pub(crate) fn gen_lit_str(s: &str) -> String {
-    format!("{:?}", s)
+    let debug = format!("{:?}", s);
+    if !debug.contains("\\0") {
+        return debug;
+    }
+    // `\0` followed by a digit is an octal escape in JavaScript: write NUL as `\x00`
+    let mut ret = String::with_capacity(debug.len() + 2);
+    let mut chars = debug.chars();
+    while let Some(c) = chars.next() {
+        ret.push(c);
+        if c == '\\' {
+            match chars.next() {
+                Some('0') => ret.push_str("x00"),
+                Some(next) => ret.push(next),
+                None => {}
+            }
+        }
+    }
+    ret
 }
 
 pub(crate) fn dash_to_camel(s: &str) -> CompactString {
